@@ -1,6 +1,6 @@
 CONSTANTS Callers = {c1, c2, c3} MaxCalls = 2
 CONSTANT Prompts <- MCPrompts
 SPECIFICATION Spec
-INVARIANTS InvC32_Exclusive InvC32_NoUseAfterUnregister InvC32_NoPanic InvMonitors InvHolder
+INVARIANTS InvC32_Exclusive InvC32_NoUseAfterUnregister InvC32_NoPanic InvMonitors InvHolder InvTokenOnce
 PROPERTIES LiveUnregisterReturns LiveCallsReturn
 CHECK_DEADLOCK FALSE
